@@ -62,12 +62,33 @@ Section Oracle.
     | _ => true
     end.
 
-  (* timely: whenever all awaited entities show a requested-or-final state at
-     tick k and still at tick k+1 (visible for a polling interval), the call
-     has returned by tick k+1 *)
-  Definition ok_timely (states : list state) (aw : list (@traj state)) (o : @res state) : bool :=
+  (* timely, reading 1: whenever all awaited entities show a requested-or-final
+     state at tick k and still at tick k+1 (visible for a polling interval),
+     the call has returned by tick k+1 *)
+  Definition ok_timely_all (states : list state) (aw : list (@traj state)) (o : @res state) : bool :=
     forallb (fun k => implb (sat states aw k && sat states aw (S k)) (ret_by o (S k)))
             (seq 0 (S (horizon aw))).
+
+  (* the entity has shown a requested or a final state at some tick j,
+     p0 <= j <= k.  p0 is the first tick at which the call looks at the
+     entities: 0, except for wait_tasks, which sleeps before its first look
+     (p0 = 1; a task cannot leave a state for an earlier one, so what it
+     showed at tick 0 it has still reached at tick 1) *)
+  Definition shown_by (p0 : nat) (states : list state) (tr : @traj state) (k : nat) : bool :=
+    existsb (fun j => mem (at_ tr j) states || is_final (at_ tr j)) (seq p0 (S k - p0)).
+
+  (* timely, reading 2 (per entity): once EVERY awaited entity HAS shown a
+     requested or final state at some tick <= k -- not necessarily at the same
+     tick, an entity may have moved on to a later state since -- the call has
+     returned by tick k+1 *)
+  Definition ok_timely_each (p0 : nat) (states : list state) (aw : list (@traj state))
+    (o : @res state) : bool :=
+    forallb (fun k => implb (forallb (fun tr => shown_by p0 states tr k) aw) (ret_by o (S k)))
+            (seq 0 (S (S (horizon aw)))).
+
+  Definition ok_timely (p0 : nat) (states : list state) (aw : list (@traj state))
+    (o : @res state) : bool :=
+    ok_timely_all states aw o && ok_timely_each p0 states aw o.
 
   (* with a timeout of T > 0 ticks the call has returned by tick T+1 *)
   Definition ok_timeout (T : option nat) (o : @res state) : bool :=
@@ -104,10 +125,10 @@ Section Oracle.
     find_all tab (snd (sel_pilots seqb final tab u)).
   Definition as_list (u : uidsel) : bool := match u with UOne _ => false | _ => true end.
 
-  Definition clauses (lst : bool) (states : list state) (T term : option nat)
+  Definition clauses (p0 : nat) (lst : bool) (states : list state) (T term : option nat)
     (aw : option (list (@traj state))) (o : @res state) : list bool :=
     match aw with
-    | Some a => [ ok_truthful lst a o; ok_timely states a o; ok_timeout T o;
+    | Some a => [ ok_truthful lst a o; ok_timely p0 states a o; ok_timeout T o;
                   ok_justified states T term a o; ok_no_exception true o ]
     | None => [ match o with Returned _ _ => false | _ => true end; true; true; true; true ]
     end.
@@ -115,17 +136,17 @@ Section Oracle.
   Definition entity_row (r : req) (T term : option nat) (fuel : nat) (tr : traj)
     (o : @res state) : list bool :=
     res_eqb (entity_wait seqb final r T term fuel tr) o
-    :: clauses false (norm final r) T term (Some [tr]) o.
+    :: clauses 0 false (norm final r) T term (Some [tr]) o.
 
   Definition wait_tasks_row (r : req) (T term : option nat) (fuel : nat)
     (tab : table) (u : uidsel) (o : @res state) : list bool :=
     res_eqb (wait_tasks seqb final value r T term fuel tab u) o
-    :: clauses (as_list u) (norm final r) T term (awaited_tasks tab u) o.
+    :: clauses 1 (as_list u) (norm final r) T term (awaited_tasks tab u) o.
 
   Definition wait_pilots_row (r : req) (T term : option nat) (fuel : nat)
     (tab : table) (u : uidsel) (o : @res state) : list bool :=
     res_eqb (wait_pilots seqb final r T term fuel tab u) o
-    :: clauses (as_list u) (norm final r) T term (awaited_pilots tab u) o.
+    :: clauses 0 (as_list u) (norm final r) T term (awaited_pilots tab u) o.
 End Oracle.
 
 (* rows for the four calls, on the generated tables *)
